@@ -443,6 +443,23 @@ def run_case(case):
             else:
                 rep.ok("lookup")
             seen[k] = r
+        # identifiers that merely CONTAIN a known DOI (or differ from it by case / a prefix) are unknown as well
+        if len(case["seq"]) == 1:
+            for known in DOIS[:3]:
+                for unk in (known + "0", known + "a", "1" + known, known[:-1], known.upper() + "x", "doi:" + known + "/2"):
+                    rep.transitions += 1
+                    try:
+                        r = m[unk]
+                        rep.violation("loader", "DOI_SHAPE_REPOSITORIES", "__getitem__", "unknown-doi-accepted", case, "unknown DOI %r returned %r" % (unk, [type(x).__name__ for x in r]))
+                        m.pop(unk, None)
+                    except KeyError:
+                        if unk in m:
+                            rep.violation("loader", "DOI_SHAPE_REPOSITORIES", "__getitem__", "unknown-key-cached", case, "unknown DOI %r left an entry behind" % unk)
+                            m.pop(unk, None)
+                        else:
+                            rep.ok("near-miss-doi-KeyError")
+                    except Exception as ex:
+                        rep.violation("loader", "DOI_SHAPE_REPOSITORIES", "__getitem__", "raised:" + type(ex).__name__, case, "%s: %r" % (unk, ex))
         if set(m.keys()) != {DOIS[k] for k in seen}:
             rep.violation("loader", "DOI_SHAPE_REPOSITORIES", "keys", "key-set", case, "mapping holds %s after %s" % (sorted(m.keys()), case["seq"]))
         return rep
